@@ -397,6 +397,126 @@ GEO_SPELLINGS = ("geography", "GEOGRAPHY", "Geography", "gEoGrApHy")
 NIBBLES = (0, 9, 10, 15)
 
 
+# ---- sequences: a token action is a function of the lexeme only (no state shared between calls / lexers)
+SEQ_POOLS = {
+    "ODATA_IDENTIFIER": ("title", "Title", "TITLE", "titles", "ns.Title", "NS.title", "élan", "Élan"),
+    "STRING": ("'abc'", "'ABC'", "'a''b'", "'A''B'"),
+    "GEOGRAPHY": ("geography'Point(1 2)'", "GEOGRAPHY'POINT(1 2)'", "geography'point(1 2)'"),
+    "DURATION": ("duration'P1D'", "duration'p1d'", "DURATION'P1DT2H'", "duration'P1DT2h'"),
+    "INTEGER": ("1", "01", "+1", "-1"), "DECIMAL": ("1.5e3", "1.5E3", "1.50e3"),
+    "BOOLEAN": ("true", "TRUE", "True", "false", "FALSE"), "NULL": ("null", "NULL"),
+    "GUID": ("abcdefab-cdef-abcd-efab-cdefabcdefab", "ABCDEFAB-CDEF-ABCD-EFAB-CDEFABCDEFAB", "abcdefab-cdef-abcd-efab-cdefabcdefac"),
+    "DATE": ("2020-02-29", "2020-02-28"), "TIME": ("10:00:00", "10:00:00.0", "10:00:01"),
+    "DATETIME": ("2020-02-29T10:00:00Z", "2020-02-29t10:00:00z", "2020-02-29T10:00:00+00:00"),
+}
+
+
+def _pick(pool, i: int):
+    """explicit branching keeps the lexeme concrete on every CrossHair path"""
+    for k in range(len(pool)):
+        if i == k:
+            return pool[k]
+    return pool[0]
+
+
+def _ref_unescape(lexeme: str) -> str:
+    out, i, n = [], 1, len(lexeme) - 1
+    while i < n:
+        out.append(lexeme[i])
+        i += 2 if lexeme[i] == "'" else 1
+    return "".join(out)
+
+
+def exact_value(kind: str, lexeme: str, node) -> bool:
+    """the value a token of `kind` must carry for `lexeme`, by an oracle that looks at this lexeme only"""
+    if kind == "ODATA_IDENTIFIER":
+        parts = lexeme.split(".")
+        return type(node) is _ast.Identifier and node.name == parts[-1] and node.namespace == tuple(parts[:-1])
+    if kind == "STRING":
+        return type(node) is _ast.String and node.val == _ref_unescape(lexeme)
+    if kind == "GEOGRAPHY":
+        return type(node) is _ast.Geography and node.val == lexeme[10:len(lexeme) - 1]
+    if kind == "DURATION":
+        return type(node) is _ast.Duration and node.val == lexeme[9:len(lexeme) - 1].upper()
+    if kind == "NULL":
+        return type(node) is _ast.Null
+    cls = {"INTEGER": _ast.Integer, "DECIMAL": _ast.Float, "BOOLEAN": _ast.Boolean, "GUID": _ast.GUID, "DATE": _ast.Date,
+           "TIME": _ast.Time, "DATETIME": _ast.DateTime}[kind]
+    if type(node) is not cls:
+        return False
+    if kind == "DATETIME":      # the node may normalise the case of its T / Z designators (value equality is what counts)
+        return node.val.upper() == lexeme.upper()
+    return node.val == lexeme
+
+
+def v_sequence(kind: str, ia: int, ib: int) -> bool:
+    """action(A), action(B), action(A) on one lexer, then action(B) on a second lexer: every result is exactly its own"""
+    pool = SEQ_POOLS[kind]
+    a, b = _pick(pool, ia), _pick(pool, ib)
+    for lexeme in (a, b, a):
+        if not exact_value(kind, lexeme, action(kind, lexeme).value):
+            return False
+    tok = _Token()
+    tok.type, tok.value, tok.lineno, tok.index = kind, b, 1, 0
+    return exact_value(kind, b, _OL._token_funcs[kind](_OL(), tok).value)
+
+
+SEQ_TEXTS = ("Name eq name", "name eq Name and NAME ne name", "Title/title eq TITLE", "ns.F(A=a, a=A)", "x/Any(Y: Y/k eq y/K)",
+             "'Abc' eq 'abc' or 'ABC' eq 'abc'", "Élan eq élan", "concat(Title, title) eq concat(title, Title)")
+
+
+def v_lexer_sequence(i: int, j: int) -> bool:
+    """the real lexer on two concrete texts in a row (one lexer instance, then a fresh one): every identifier / string token
+    carries exactly the spelling at its own position"""
+    for text in (_pick(SEQ_TEXTS, i), _pick(SEQ_TEXTS, j)):
+        for lexer in (_LEXER, _OL()):
+            for tok in lexer.tokenize(text):
+                if tok.type in ("ODATA_IDENTIFIER", "STRING"):
+                    lexeme = text[tok.index:tok.index + _tok_len(text, tok)]
+                    if not exact_value(tok.type, lexeme, tok.value):
+                        return False
+    return True
+
+
+def _tok_len(text: str, tok) -> int:
+    """extent of an identifier / string token starting at tok.index (independent scan)"""
+    i = tok.index
+    if tok.type == "STRING":
+        j = i + 1
+        while j < len(text):
+            if text[j] == "'":
+                if j + 1 < len(text) and text[j + 1] == "'":
+                    j += 2
+                    continue
+                return j + 1 - i
+            j += 1
+        return len(text) - i
+    j = i
+    while j < len(text) and (text[j].isalnum() or text[j] in "_."):
+        j += 1
+    return j - i
+
+
+def sequence_items(tier: str) -> List[Item]:
+    it: List[Item] = []
+    for kind, pool in SEQ_POOLS.items():
+        n = len(pool)
+        if kind == "ODATA_IDENTIFIER":
+            for ia in range(n):
+                it.append(Item(f"sequence_{kind}_{ia}", "x0: int", f"0 <= x0 < {n}", f"v_sequence({kind!r}, {ia}, x0)", family="value:sequence",
+                               describe=f"{kind} action on {pool[ia]!r}, then on a symbolic pick of {pool}, then again; second lexer: each value exact"))
+        else:
+            it.append(Item(f"sequence_{kind}", "x0: int, x1: int", f"0 <= x0 < {n} and 0 <= x1 < {n}", f"v_sequence({kind!r}, x0, x1)",
+                           family="value:sequence",
+                           describe=f"{kind} action on two symbolic picks of {pool} in a row (A, B, A; second lexer): each value exact"))
+    m = len(SEQ_TEXTS)
+    for i in range(m):
+        it.append(Item(f"lexer_sequence_{i}", "x0: int", f"0 <= x0 < {m}", f"v_lexer_sequence({i}, x0)", family="value:sequence",
+                       describe=f"real lexer on {SEQ_TEXTS[i]!r} then on a symbolic pick of the {m} texts: every identifier / string token "
+                                "carries its own spelling"))
+    return it
+
+
 def value_items(tier: str) -> List[Item]:
     """One CrossHair condition per item.  Finite choices (digits, indexes into the value pools above, case masks) are
     symbolic ints that CrossHair enumerates path by path and certifies exhausted; string contents are symbolic str.
@@ -518,7 +638,7 @@ def reachability(run: Run, header: str, items: List[Item], timeout: float = 20.0
 
 
 def run_values(run: Run, tier: str, progress: bool) -> None:
-    items = value_items(tier)
+    items = value_items(tier) + sequence_items(tier)
     run.encode("odata_query.grammar.ODataLexer token actions STRING, INTEGER, DECIMAL, BOOLEAN, NULL, ODATA_IDENTIFIER, "
                "GEOGRAPHY, GUID, DURATION, DATE, TIME, DATETIME (via ODataLexer._token_funcs)",
                "odata_query.ast.Integer/Float/Boolean/Null/String/GUID/Date/Time/DateTime.py_val",
